@@ -1,4 +1,4 @@
-(* C18 driver.  Case lines (STYLE = budget | short, KS = list of fault points):
+(* C18 driver.  Case lines (STYLE = budget | short | eager, KS = list of fault points):
      wloop STYLE HDRLEN (BODYLEN ...) (K ...) [FONT ENTRY]    header.Write's loop on lengths
             -> ((n err calls after) ...)            one entry per K
      wloope ...                                    same for an entry point that returns only the error
@@ -21,21 +21,21 @@ let () = main_loop (fun c ->
   match c with
   | A "wloop" :: style :: hdr :: bodies :: ks :: _ ->
     let mk = (match atom style with
-      | "budget" -> budget_lwriter | "short" -> short_lwriter | _ -> failwith "bad style") in
+      | "budget" -> budget_lwriter | "short" -> short_lwriter | "eager" -> eager_lwriter | _ -> failwith "bad style") in
     let hdr = sx_n hdr and bodies = List.map sx_n (lst bodies) in
     L (List.map (fun k ->
         let (((n, e), calls), after) = lsummary (m_write_loop_len (mk (sx_n k)) hdr bodies) in
         L [an n; ab e; an calls; an after]) (lst ks))
   | A "wloope" :: style :: hdr :: bodies :: ks :: _ ->
     let mk = (match atom style with
-      | "budget" -> budget_lwriter | "short" -> short_lwriter | _ -> failwith "bad style") in
+      | "budget" -> budget_lwriter | "short" -> short_lwriter | "eager" -> eager_lwriter | _ -> failwith "bad style") in
     let hdr = sx_n hdr and bodies = List.map sx_n (lst bodies) in
     L (List.map (fun k ->
         let (((n, e), calls), after) = lsummary (m_write_loop_len (mk (sx_n k)) hdr bodies) in
         L [ab e; an calls; an after]) (lst ks))
   | [A "wbytes"; style; scaler; tabs; ks] ->
     let mk = (match atom style with
-      | "budget" -> budget_writer | "short" -> short_writer | _ -> failwith "bad style") in
+      | "budget" -> budget_writer | "short" -> short_writer | "eager" -> eager_writer | _ -> failwith "bad style") in
     let scaler = sx_n scaler and tabs = List.map sx_table (lst tabs) in
     (match m_write scaler tabs with
      | Panic -> A "panic"
@@ -48,7 +48,7 @@ let () = main_loop (fun c ->
            | _ -> A "panic") (lst ks)))
   | A "cffloop" :: style :: blobs :: ks :: _ ->
     let mk = (match atom style with
-      | "budget" -> budget_writer | "short" -> short_writer | _ -> failwith "bad style") in
+      | "budget" -> budget_writer | "short" -> short_writer | "eager" -> eager_writer | _ -> failwith "bad style") in
     let blobs = List.map (fun x -> zeros (sx_int x)) (lst blobs) in
     L (List.map (fun k ->
         let (((e, calls), after), held) = cff_summary (m_cff_write_loop (mk (sx_nat k)) blobs) in
